@@ -2,8 +2,13 @@
   C15 — fallible operations fail by value, not by panic or hang.
   This file collects the "returns normally" (`… = .ok r`, i.e. no panic, no trapped overflow, no
   failed debug assertion) and "never builds an invalid value" halves of the other properties'
-  theorems, as corollaries stated for every argument of the machine domain.  Entry points whose
-  models are not yet proved total appear in props/C15.json as compared-only (extremes sweep).
+  theorems, as corollaries stated for every argument of the machine domain — constructors, checked
+  arithmetic, field replacement (naive and zone-aware), rounding, every parser and field-resolution
+  method, the RFC 3339 renderers, serde — plus three things of its own: every record the parser can
+  build is in type (so `parse_from_str` is total for arbitrary text × arbitrary format string), the
+  byte-level boundary theorems (every `&str` slice of the scanners is at a char boundary), and the
+  sharp linear bound on `StrftimeItems`.  props/C15.json lists which entry points have a theorem here
+  and which are covered by the extremes sweep only.
 -/
 import Chrono.Props.C01
 import Chrono.Props.C06
@@ -16,9 +21,24 @@ import Chrono.Props.C04
 import Chrono.Props.C08
 import Chrono.Props.C12
 import Chrono.Props.C17
+import Chrono.Props.C09
+import Chrono.Props.C10
+import Chrono.Props.C11
+import Chrono.Props.C13
+import Chrono.Props.C14
+import Chrono.Props.C20
+import Chrono.Proofs.C15TotalL
+import Chrono.Proofs.C15RenderL
+import Chrono.Proofs.C15SerdeL
+import Chrono.Proofs.C15ZonedL
+import Chrono.Proofs.ScanBoundaryL
+import Chrono.Proofs.C15ArithL
+import Chrono.Proofs.StrftimeBoundL
+import Chrono.Proofs.StrftimeUtf8L
 
 namespace Chrono.Props.C15
 open Chrono Chrono.M Chrono.Spec Chrono.Proofs Chrono.Extracted
+open Chrono.Spec.Fields Chrono.Proofs.C15Total Chrono.Proofs.C15Zoned Chrono.Proofs.C15Arith
 
 /-- the calendar constructors return normally for every argument, and a returned date satisfies the
 representation invariant -/
@@ -55,19 +75,20 @@ theorem date_ctors_total (y : Int) (m d o : Nat) :
       exact hinv y o hc.1 hc.2.1 hc.2.2.1 hc.2.2.2
     · rw [if_neg hc] at hx; cases hx
 
-/-- the day-number constructor returns normally for every `i32` -/
-theorem date_from_days_total (n : Int) (hn : -2147483648 ≤ n ∧ n ≤ 2147483647) :
-    ∃ r, Date.from_num_days_from_ce_opt n = .ok r := by
-  obtain ⟨r, h, _⟩ := C01.ctor_days n hn
-  exact ⟨r, h⟩
+/-- the day-number constructor returns normally for every `i32`, the ISO week-date constructor for every
+`i32` year (including `i32::MIN` / `i32::MAX`: the `year ± 1` steps are checked), every week number and
+weekday; a returned date satisfies the representation invariant -/
+theorem date_from_days_total (n : Int) (hn : -2147483648 ≤ n ∧ n ≤ 2147483647) (y : Int) (w : Nat)
+    (wd : Weekday) :
+    OkAnd (Date.from_num_days_from_ce_opt n) DateInv ∧ OkAnd (Date.from_isoywd_opt y w wd) DateInv :=
+  ⟨from_days n hn, from_isoywd y w wd⟩
 
-/-- successor / predecessor return normally on every date of the range -/
-theorem date_succ_pred_total (y : Int) (o : Nat) (hy : MIN_YEAR ≤ y ∧ y ≤ MAX_YEAR)
-    (ho : 1 ≤ o ∧ o ≤ yearLen y) :
-    (∃ r, Date.succ_opt (dateOfYo y o) = .ok r) ∧ (∃ r, Date.pred_opt (dateOfYo y o) = .ok r) := by
-  obtain ⟨r1, h1, _⟩ := C01.succ_ok y o hy ho
-  obtain ⟨r2, h2, _⟩ := C01.pred_ok y o hy ho
-  exact ⟨⟨r1, h1⟩, ⟨r2, h2⟩⟩
+/-- successor / predecessor return normally on every date of the range, and what they return is a date
+of the range -/
+theorem date_succ_pred_total (d : Date) (hd : DateInv d) :
+    OkAnd d.succ_opt DateInv ∧ OkAnd d.pred_opt DateInv := by
+  obtain ⟨a, b, _⟩ := date_ops d hd 0 0 0 0 ⟨0, 0⟩ 0 (by omega) (by decide) (by omega)
+  exact ⟨a, b⟩
 
 /-- duration arithmetic returns normally on all valid operands and every `i32` factor / divisor, and
 whatever it returns is inside the range -/
@@ -95,11 +116,22 @@ theorem delta_ops_total (a b : Delta) (k : Int) (ha : DInv a) (hb : DInv b)
       have := ha.2.2; unfold nsInRange at *; omega
     exact (C06.ofNs_spec _ hr).1
 
-/-- time-of-day arithmetic returns normally for every valid time (leap representations included)
-and every duration -/
-theorem time_ops_total (t u : Time) (d : Delta) (ht : TValid t) (hu : TValid u) (hd : DInv d) :
-    (∃ r, Time.overflowing_add_signed t d = .ok r) ∧ (∃ r, Time.signed_duration_since t u = .ok r) :=
-  ⟨⟨_, C07.add_spec t d ht hd⟩, ⟨_, (C07.diff_spec t u ht hu).1⟩⟩
+/-- time of day: arithmetic returns normally for every valid time (leap representations on any second)
+and every duration, the time part of the result is valid and the difference is inside the `TimeDelta`
+range; what the single-field replacements and the `u32`-argument constructors return is a valid time
+(those models are `Option`-valued: they contain no operation that could panic — every `u32` product is a
+`checked_mul`) -/
+theorem time_ops_total (t u : Time) (d : Delta) (v : Int) (ht : TValid t) (hu : TValid u) (hd : DInv d)
+    (hv : 0 ≤ v) (h m s n : Int) (h0 : 0 ≤ h) (m0 : 0 ≤ m) (s0 : 0 ≤ s) (n0 : 0 ≤ n) (x : Time) :
+    ((∃ r, Time.overflowing_add_signed t d = .ok r ∧ TValid r.1) ∧
+     (∃ r, Time.overflowing_sub_signed t d = .ok r ∧ TValid r.1) ∧
+     (∃ r, Time.signed_duration_since t u = .ok r ∧ DInv r) ∧
+     (∀ x, t.with_hour v = some x → TValid x) ∧ (∀ x, t.with_minute v = some x → TValid x) ∧
+     (∀ x, t.with_second v = some x → TValid x) ∧ (∀ x, t.with_nanosecond v = some x → TValid x)) ∧
+    ((Time.from_hms_opt h m s = some x → TValid x) ∧ (Time.from_hms_milli_opt h m s n = some x → TValid x) ∧
+     (Time.from_hms_micro_opt h m s n = some x → TValid x) ∧ (Time.from_hms_nano_opt h m s n = some x → TValid x) ∧
+     (Time.from_num_seconds_from_midnight_opt s n = some x → TValid x)) :=
+  ⟨time_ops t u d v ht hu hd hv, time_ctors h m s n h0 m0 s0 n0 x⟩
 
 /-- the TZif reader and the TZ-rule reader never panic, on any byte string -/
 theorem tz_readers_total (bytes : List Nat) (ext : Bool) :
@@ -119,55 +151,422 @@ theorem from_timestamp_total (secs nsecs : Int) (hs : Spec.Ts.isI64 secs) (hn : 
   obtain ⟨r, h, hv⟩ := C02.from_ts_meaning secs nsecs hs hn
   exact ⟨r, h, fun dt hd => (hv dt hd).1⟩
 
-/-- date-time ± duration and date ± days return normally on every valid operand (non-leap for the
-date-time form; leap operands: `C03.add_with_leap_operand`) -/
-theorem datetime_arith_total (dt : NaiveDT) (δ : Delta) (d : Date) (n : Int) (hdt : NDTInv dt)
-    (hnl : NonLeap dt) (hδ : DInv δ) (hd : DateInv d) (hn : -2147483648 ≤ n ∧ n ≤ 2147483647) :
-    (∃ r, NaiveDT.checked_add_signed dt δ = .ok r) ∧ (∃ r, Date.add_days d n = .ok r) := by
-  obtain ⟨r1, h1, _⟩ := C03.add_exact dt δ hdt hnl hδ
-  obtain ⟨r2, h2, _⟩ := C03.add_days_exact d n hd hn
-  exact ⟨⟨r1, h1⟩, ⟨r2, h2⟩⟩
+/-- date-time ± duration returns normally on EVERY valid date-time — leap-second representations
+included (C03 `add_with_leap_operand`) — and every duration, for both `checked_add_signed` and
+`checked_sub_signed`, and what is returned is a valid date-time -/
+theorem datetime_arith_total (dt : NaiveDT) (δ : Delta) (hdt : NDTInv dt) (hδ : DInv δ) :
+    OkAnd (NaiveDT.checked_add_signed dt δ) NDTInv ∧ OkAnd (NaiveDT.checked_sub_signed dt δ) NDTInv :=
+  datetime_arith dt δ hdt hδ
+
+/-- non-vacuity: a leap second crossing midnight; the range ends -/
+example : NDTInv ⟨dateOfYo 2016 366, ⟨86399, 1500000000⟩⟩ ∧
+    NaiveDT.checked_add_signed ⟨dateOfYo 2016 366, ⟨86399, 1500000000⟩⟩ ⟨0, 500000000⟩ =
+      .ok (some ⟨dateOfYo 2017 1, ⟨0, 0⟩⟩) ∧
+    NaiveDT.checked_sub_signed NaiveDT.MIN ⟨0, 1⟩ = .ok none ∧
+    NaiveDT.checked_add_signed NaiveDT.MAX ⟨0, 1⟩ = .ok none := by decide +kernel
 
 /-- zone-aware values: building from a wall clock and reading the wall clock (with the one-day
-headroom) return normally for every valid value and every offset a `FixedOffset` can hold -/
+headroom) return normally for every valid value and every offset a `FixedOffset` can hold; a value built
+is well formed (UTC reading inside the range, the given offset), the wall clock read is a well-formed
+reading of the calendar extended by one day at each end -/
 theorem zoned_total (off : Int) (ℓ : NaiveDT) (z : Zoned) (ho : OffValid off) (hℓ : NDTInv ℓ)
     (hz : ZInv z) :
-    (∃ r, Zoned.from_local_datetime off ℓ = .ok r) ∧ (∃ l, Zoned.overflowing_naive_local z = .ok l) := by
+    (∃ r, Zoned.from_local_datetime off ℓ = .ok r ∧ ∀ x, r = some x → ZInv x ∧ x.off = off) ∧
+    (∃ l, Zoned.overflowing_naive_local z = .ok l ∧ ExtNDTInv l) := by
   obtain ⟨r, h, _⟩ := C04.fromLocal_fails_iff off ℓ ho hℓ
-  obtain ⟨l, h2, _⟩ := C04.headroom_sound z hz
-  exact ⟨⟨r, h⟩, ⟨l, h2⟩⟩
+  obtain ⟨l, h2, h3, _⟩ := C04.headroom_sound z hz
+  refine ⟨⟨r, h, fun x hx => ?_⟩, ⟨l, h2, h3⟩⟩
+  obtain ⟨a, b, _⟩ := C04.local_of_fromLocal off ℓ ho hℓ x (by rw [h, hx])
+  exact ⟨b, a⟩
 
-/-- month stepping and every date field replacement return normally for every date of the range and
-every argument (including `u32::MAX`-sized ones) -/
-theorem date_ops_total (y : Int) (o : Nat) (hy : MIN_YEAR ≤ y ∧ y ≤ MAX_YEAR) (ho : 1 ≤ o ∧ o ≤ yearLen y)
-    (n v : Nat) (y' : Int) :
-    (∃ r, (dateOfYo y o).checked_add_months n = .ok r) ∧ (∃ r, (dateOfYo y o).checked_sub_months n = .ok r) ∧
-    (∃ r, (dateOfYo y o).with_year y' = .ok r) ∧ (∃ r, (dateOfYo y o).with_month v = .ok r) ∧
-    (∃ r, (dateOfYo y o).with_day v = .ok r) ∧ (∃ r, (dateOfYo y o).with_ordinal v = .ok r) ∧
-    (∃ r, (dateOfYo y o).with_month0 v = .ok r) ∧ (∃ r, (dateOfYo y o).with_day0 v = .ok r) ∧
-    (∃ r, (dateOfYo y o).with_ordinal0 v = .ok r) := by
-  obtain ⟨m1, m2⟩ := C08.months_spec y o hy ho n
-  obtain ⟨w1, w2, w3, w4, w5, w6, w7⟩ := C08.with_field_spec y o hy ho v y'
-  exact ⟨⟨_, m1⟩, ⟨_, m2⟩, ⟨_, w1⟩, ⟨_, w2⟩, ⟨_, w4⟩, ⟨_, w6⟩, ⟨_, w3⟩, ⟨_, w5⟩, ⟨_, w7⟩⟩
+/-- every date-level stepping and replacement — `succ/pred`, `checked_add/sub_months` (any count),
+`diff_months` (every `i32`), the seven field replacements (arguments of any size, `u32::MAX` included),
+`add_days` (every `i32`), `checked_add/sub_days` (every `u64`), `checked_add/sub_signed` (every duration)
+— on every date of the range: returns normally, and what it returns is a date of the range -/
+theorem date_ops_total (d : Date) (hd : DateInv d) (n v : Nat) (y' k : Int) (δ : Delta) (c : Int)
+    (hk : -2147483648 ≤ k ∧ k ≤ 2147483647) (hδ : DInv δ) (hc : 0 ≤ c ∧ c ≤ 18446744073709551615) :
+    OkAnd d.succ_opt DateInv ∧ OkAnd d.pred_opt DateInv ∧
+    OkAnd (d.checked_add_months n) DateInv ∧ OkAnd (d.checked_sub_months n) DateInv ∧
+    OkAnd (d.diff_months k) DateInv ∧
+    OkAnd (d.with_year y') DateInv ∧ OkAnd (d.with_month v) DateInv ∧ OkAnd (d.with_month0 v) DateInv ∧
+    OkAnd (d.with_day v) DateInv ∧ OkAnd (d.with_day0 v) DateInv ∧ OkAnd (d.with_ordinal v) DateInv ∧
+    OkAnd (d.with_ordinal0 v) DateInv ∧
+    OkAnd (Date.add_days d k) DateInv ∧ OkAnd (Date.checked_add_days d c) DateInv ∧
+    OkAnd (Date.checked_sub_days d c) DateInv ∧ OkAnd (Date.checked_add_signed d δ) DateInv ∧
+    OkAnd (Date.checked_sub_signed d δ) DateInv :=
+  date_ops d hd n v y' k δ c hk hδ hc
+
+/-- non-vacuity at the range ends and the integer extremes -/
+example : DateInv Date.MAX ∧ DateInv Date.MIN ∧ Date.MAX.with_ordinal0 4294967295 = .ok none ∧
+    Date.MIN.diff_months (-2147483648) = .ok none ∧
+    Date.checked_sub_days Date.MAX 18446744073709551615 = .ok none ∧
+    Date.from_isoywd_opt (-2147483648) 1 .mon = .ok none ∧ Date.from_isoywd_opt 2147483647 53 .sun = .ok none := by
+  decide +kernel
+
+/-- the `TimeDelta` constructors `new`, `try_weeks/days/hours/minutes/seconds` (`try_unit`),
+`try_milliseconds`, `microseconds`, `nanoseconds` on every `i64` (any `u32` nanosecond field for `new`):
+whatever they return is inside the range (`Option`-valued models: the products are `checked_mul`) -/
+theorem delta_ctors_total (secs nanos n unit : Int) (hn0 : 0 ≤ nanos)
+    (hu : unit = 1 ∨ unit = 60 ∨ unit = 3600 ∨ unit = 86400 ∨ unit = 604800)
+    (hn : -9223372036854775808 ≤ n ∧ n ≤ 9223372036854775807) (x : Delta) :
+    (Delta.new secs nanos = some x → DInv x) ∧ (Delta.try_unit unit n = some x → DInv x) ∧
+    (Delta.try_milliseconds n = some x → DInv x) ∧ DInv (Delta.microseconds n) ∧ DInv (Delta.nanoseconds n) :=
+  delta_ctors secs nanos n unit hn0 hu hn x
 
 /-- rounding never panics: every failure is reported by value -/
 theorem rounding_total (op : Round.Op) (stamp span : Option Int)
     (hspan : ∀ p, span = some p → p ≤ 9223372036854775807) : Round.run op stamp span ≠ .panic :=
   (C17.err_iff op stamp span hspan).2.2.2.1
 
-/-- iterating the items of ANY format string terminates: each step consumes at least one byte and
-queues at most 12 further items, so there are at most 13 items per input byte, in strict and in
-lenient mode (`l`), and the `next` iterator ends within 13·len + 1 calls.  (The property text's
-bound "one item per input byte plus a constant" is not met by composite specifiers: known finding
-F18; the linear bound is what holds.) -/
+/-- iterating the items of ANY format string terminates, in strict and in lenient mode (`l`): each
+`parse_next_item` step consumes at least one byte and queues at most 12 further items, and a step that
+queues anything (a composite specifier) has consumed at least two bytes; so TWICE THE NUMBER OF ITEMS IS
+AT MOST 13 TIMES THE BYTE LENGTH (sharp: `%c` = 13 items from 2 bytes; the harness enforces exactly this
+bound), and the `next` iterator ends within 13·len + 1 calls.  (The property text's bound "one item per
+input byte plus a constant" is not met by composite specifiers: known finding F18; this linear bound is
+what holds.) -/
 theorem strftime_terminates (l : Bool) (s : List Nat) :
-    (Strftime.itemsAux l (s.length + 1) s).length ≤ 13 * s.length ∧
+    2 * (Strftime.itemsAux l (s.length + 1) s).length ≤ 13 * s.length ∧
     (∀ n, 13 * s.length < n → Strftime.drain l n ⟨s, []⟩ = Strftime.itemsAux l (s.length + 1) s) := by
-  obtain ⟨_, _, h3, h4⟩ := C12.strftime_terminates l s
-  exact ⟨h3, h4⟩
+  obtain ⟨_, _, _, h4⟩ := C12.strftime_terminates l s
+  exact ⟨StrftimeBound.itemsAux_length2 l _ s, h4⟩
 
-/-- the documented panics are real: operator subtraction on the minimum duration overflows
-(checked form says `none`), so the operator's `expect` fires -/
-example : Delta.checked_sub Delta.MIN ⟨0, 1⟩ = .ok none := by decide
+/-- the bound is attained, and the literal bound of the property text fails (F18) -/
+example : (Strftime.items [37, 99]).length = 13 ∧ 2 * 13 = 13 * [37, 99].length ∧
+    ¬ (Strftime.items [37, 99]).length ≤ [37, 99].length + 10 := by decide +kernel
+
+/-- **the documented panics, and only they.**  The operations the property lists as panicking do panic
+in the models, exactly on the documented inputs: the `+` operator of `NaiveDateTime` panics exactly when the
+exact sum is not representable (C03 `operator_exact`); `naive_local` of a well-formed value panics exactly
+when the wall clock lies outside the range, while `overflowing_naive_local` never does (C04
+`headroom_sound`); `to_rfc2822` panics exactly when the wall-clock year is outside 0–9999 (C11
+`writer_shape`). -/
+theorem documented_panics (dt : NaiveDT) (δ : Delta) (hdt : NDTInv dt) (hnl : NonLeap dt) (hδ : DInv δ)
+    (z : Zoned) (hz : ZInv z) (Y : Int) (o : Nat) (hw : Spec.Rfc2822.WallDate z Y o) :
+    (NaiveDT.add dt δ = .panic ↔ ¬ (NS_MIN ≤ instNs dt + ns δ ∧ instNs dt + ns δ ≤ NS_MAX_DT)) ∧
+    (Zoned.naive_local z = .panic ↔ ¬ InRangeSecs (wallSecs z)) ∧
+    (Rfc2822.to_rfc2822 z = .panic ↔ ¬ (0 ≤ Y ∧ Y ≤ 9999)) := by
+  obtain ⟨a1, a2⟩ := C03.operator_exact dt δ hdt hnl hδ
+  obtain ⟨l, _, _, _, _, hn, _⟩ := C04.headroom_sound z hz
+  have hw' := C11.writer_shape z hz Y o hw
+  refine ⟨⟨fun hp hin => ?_, a2⟩, ?_, ?_⟩
+  · obtain ⟨x, hx, _⟩ := a1 hin; rw [hx] at hp; cases hp
+  · rw [hn]
+    constructor
+    · intro hp hin; rw [if_pos hin] at hp; cases hp
+    · intro hout; rw [if_neg hout]
+  · rw [hw']
+    constructor
+    · intro hp hin; rw [if_pos hin] at hp; cases hp
+    · intro hout; rw [if_neg hout]
+
+/-- the documented panics are real: operator subtraction on the minimum duration overflows (checked form
+says `none`), the `+` operator at the range end, `naive_local` of `MAX_UTC` viewed at `+01:00` (while the
+headroom view succeeds), `to_rfc2822` in year 10000 -/
+example : Delta.checked_sub Delta.MIN ⟨0, 1⟩ = .ok none ∧ NaiveDT.add NaiveDT.MAX ⟨0, 1⟩ = .panic ∧
+    Zoned.naive_local ⟨NaiveDT.MAX, 3600⟩ = .panic ∧
+    (Zoned.overflowing_naive_local ⟨NaiveDT.MAX, 3600⟩).isOk = true ∧
+    Rfc2822.to_rfc2822 ⟨⟨dateOfYo 10000 1, ⟨0, 0⟩⟩, 0⟩ = .panic := by decide +kernel
+
+/-! ## parsers and field resolution -/
+
+/-- **every record the parser can build is in type.**  Whatever the text (any byte string, so any
+Unicode text), whatever the items (every format string's items, the `RFC2822` / `RFC3339` items, error
+items) and from whatever in-type record it starts: a record returned by `parse_internal` (the engine of
+`parse` / `parse_and_remainder`), by the RFC 2822 scanner, by the relaxed and by the strict RFC 3339
+scanner holds only values of the Rust field types (`i32` years and offset, `u32` calendar and clock
+fields, `i64` timestamp).  This is the hypothesis of every C14 resolver theorem. -/
+theorem parser_builds_in_type (items : List Item) (p : Parsed) (s : List Nat) (p' : Parsed) (s' : List Nat)
+    (hp : InType p) :
+    (Parse.parse_internal p s items = .ok (p', s') → InType p') ∧
+    (Parse.parse p s items = .ok p' → InType p') ∧
+    (Parse.parse_rfc2822 p s = .ok (p', s') → InType p') ∧
+    (Parse.parse_rfc3339_relaxed p s = .ok (p', s') → InType p') ∧
+    (Parse.parse_rfc3339 p s = .ok (p', s') → InType p') ∧ InType Parsed.new :=
+  ⟨ParseInType.parse_internal_inType items p s p' s' hp, ParseInType.parse_inType items p s p' hp,
+   ParseInType.rfc2822_inType p s p' s' hp, ParseInType.relaxed_inType p s p' s' hp,
+   ParseInType.strict_inType p s p' s' hp, ParseInType.inType_new⟩
+
+/-- **field resolution.**  On every record of in-type field values, for every `i32` offset argument and
+every fixed-offset zone, each of the six `Parsed::to_*` resolvers returns a value or an error kind, never
+panics (C14 `no_panic`), and a value it returns satisfies the representation invariant of its type
+(`to_naive_time`, `to_fixed_offset` are `ParseResult`-valued in the model: no operation in them can
+panic). -/
+theorem resolvers_total (p : Parsed) (hp : InType p) (off zone : Int)
+    (hoff : -2147483648 ≤ off ∧ off ≤ 2147483647) (hz : OffValid zone) :
+    (∃ r, Parsed.to_naive_date p = .ok r ∧ ∀ d, r = .ok d → DateInv d) ∧
+    (∃ r, (.ok (Parsed.to_naive_time p) : Parsed.RP Time) = .ok r ∧ ∀ t, r = .ok t → TValid t) ∧
+    (∃ r, Parsed.to_naive_datetime_with_offset p off = .ok r ∧ ∀ dt, r = .ok dt → NDTInv dt) ∧
+    (∃ r, (.ok (Parsed.to_fixed_offset p) : Parsed.RP Int) = .ok r ∧ ∀ o, r = .ok o → OffValid o) ∧
+    (∃ r, Parsed.to_datetime p = .ok r ∧ ∀ z, r = .ok z → ZInv z) ∧
+    (∃ r, Parsed.to_datetime_with_timezone p zone = .ok r ∧ ∀ z, r = .ok z → ZInv z) := by
+  have _h := C14.no_panic p hp off zone hoff hz
+  exact ⟨date_total p hp, ⟨_, rfl, fun t ht => (C14.time_sound p t ht).1.1⟩, naive_total p hp off hoff,
+    ⟨_, rfl, fun o ho => (((C14.fixed_offset_sound p).1 o).mp ho).2⟩, C15Total.zoned_total p hp,
+    zoned_tz_total p hp zone hz⟩
+
+/-- **`parse_from_str` / `parse_and_remainder`, all four target types** (`NaiveDate`, `NaiveTime`,
+`NaiveDateTime`, `DateTime<FixedOffset>`), ARBITRARY text × ARBITRARY format string (any two byte
+strings: ASCII, multi-byte, truncated specifiers): the call returns `Ok` or `Err(kind)`, never panics,
+and an `Ok` value is of the target type and satisfies its invariant. -/
+theorem parse_from_str_total (t : ParseFrom.Target) (s fmt : List Nat) :
+    (∃ r, ParseFrom.parse_from_str t s fmt = .ok r ∧ ∀ v, r = .ok v → ValueValid v ∧ v.target = t) ∧
+    (∃ r, ParseFrom.parse_and_remainder t s fmt = .ok r ∧
+      ∀ v rest, r = .ok (v, rest) → ValueValid v ∧ v.target = t) :=
+  ⟨C15Total.parse_from_str_total t s fmt, C15Total.parse_and_remainder_total t s fmt⟩
+
+/-- non-vacuity: U+2212, a digit and a lone lead byte against `%Y%` (a truncated specifier); a timestamp
+beyond the range with an offset; both are errors by value -/
+example :
+    (∃ r, ParseFrom.parse_from_str .naive [0xE2, 0x88, 0x92, 0x31, 0xC3] [37, 89, 37] = .ok r) ∧
+    (∃ r, ParseFrom.parse_from_str .zoned (asciiBytes "9223372036854775807 +00:00") (asciiBytes "%s %z") = .ok r) :=
+  ⟨by obtain ⟨r, h, _⟩ := (parse_from_str_total .naive _ _).1; exact ⟨r, h⟩,
+   by obtain ⟨r, h, _⟩ := (parse_from_str_total .zoned _ _).1; exact ⟨r, h⟩⟩
+
+/-- **the RFC 2822 / RFC 3339 readers**, every byte string: `Ok` or `Err`, never a panic (C11
+`reader_total`; C10 `reader_accepts_iff` + `reader_total_rejects`), and an `Ok` value is well formed. -/
+theorem rfc_readers_total (s : List Nat) :
+    (∃ r, Rfc2822.parse_from_rfc2822 s = .ok r ∧ ∀ z, r = .ok z → ZInv z) ∧
+    (∃ r, Rfc3339.parse_from_rfc3339 s = .ok r ∧ ∀ z, r = .ok z → ZInv z) := by
+  have _h := C11.reader_total s
+  exact ⟨rfc2822_total s, rfc3339_total s⟩
+
+/-- **the `FromStr` impls** of `NaiveDate`, `NaiveTime`, `NaiveDateTime`, `DateTime<FixedOffset>`,
+`DateTime<Utc>`, `FixedOffset`, every byte string: `Ok` or `Err`, never a panic, `Ok` values valid
+(`NaiveTime` / `FixedOffset`: `ParseResult`-valued models; `Weekday` / `Month`: `Option`-valued, C09). -/
+theorem from_str_total (s : List Nat) :
+    (∃ r, TextForms.date_from_str s = .ok r ∧ ∀ d, r = .ok d → DateInv d) ∧
+    (∃ r, (.ok (TextForms.time_from_str s) : Parsed.RP Time) = .ok r ∧ ∀ t, r = .ok t → TValid t) ∧
+    (∃ r, TextForms.naive_from_str s = .ok r ∧ ∀ dt, r = .ok dt → NDTInv dt) ∧
+    (∃ r, TextForms.fixed_from_str s = .ok r ∧ ∀ z, r = .ok z → ZInv z) ∧
+    (∃ r, TextForms.utc_from_str s = .ok r ∧ ∀ z, r = .ok z → ZInv z ∧ z.off = 0) ∧
+    (∃ r, (.ok (TextForms.offset_from_str s) : Parsed.RP Int) = .ok r ∧ ∀ o, r = .ok o → OffValid o) := by
+  obtain ⟨r, hr, hv⟩ := fixed_from_str_total s
+  refine ⟨date_from_str_total s, ⟨_, rfl, fun t ht => time_from_str_valid s t ht⟩, naive_from_str_total s,
+    ⟨r, hr, hv⟩, ?_, ⟨_, rfl, fun o ho => offset_from_str_valid s o ho⟩⟩
+  unfold TextForms.utc_from_str
+  rw [hr]
+  cases r with
+  | error e => exact ⟨_, rfl, fun z hz => by cases hz⟩
+  | ok a =>
+    refine ⟨_, rfl, fun z hz => ?_⟩
+    injection hz with hz; subst hz
+    have := hv a rfl
+    exact ⟨⟨this.1, by unfold OffValid Zoned.with_timezone; dsimp only; omega⟩, rfl⟩
+
+/-! ## RFC 3339 renderers and serde -/
+
+/-- **`to_rfc3339` / `to_rfc3339_opts`** return the text — no panic from the wall-clock view, no
+`expect` on a formatter error — for EVERY well-formed zone-aware value, every `SecondsFormat`, with and
+without `Z`: also when the wall clock lies in the headroom day beyond a range end (`MAX_UTC` at `+01:00`)
+and for wall-clock years outside 0..=9999 (signed five-digit form; C10's `writer_in_grammar` covers
+0..=9999 only).  Rests on C04 `headroom_sound`. -/
+theorem rfc3339_render_total (z : Zoned) (hz : ZInv z) (sf : Format.SecondsFormat) (use_z : Bool) :
+    (∃ t, Rfc3339.to_rfc3339_opts z sf use_z = .ok t) ∧ (∃ t, Rfc3339.to_rfc3339 z = .ok t) :=
+  ⟨C15Render.to_rfc3339_opts_total z hz sf use_z, C15Render.to_rfc3339_opts_total z hz .autoSi false⟩
+
+/-- non-vacuity at the range ends (finding #4's input): `MAX_UTC` viewed at `+01:00` and `MIN_UTC` at
+`−01:00` are well formed and render as `+262143-01-01T00:59:59+01:00` / `-262144-12-31T23:00:00-01:00` -/
+example :
+    ZInv ⟨NaiveDT.MAX, 3600⟩ ∧ ZInv ⟨NaiveDT.MIN, -3600⟩ ∧
+    Rfc3339.to_rfc3339_opts ⟨NaiveDT.MAX, 3600⟩ .secs true = .ok (asciiBytes "+262143-01-01T00:59:59+01:00") ∧
+    Rfc3339.to_rfc3339 ⟨NaiveDT.MIN, -3600⟩ = .ok (asciiBytes "-262144-12-31T23:00:00-01:00") := by
+  decide +kernel
+
+/-- **`Serialize for DateTime<Tz>`** (fixed offset / UTC) hands the serializer a text for every
+well-formed value (the wall clock is read with the one-day headroom; finding #6 repaired); the four
+string visitors (`NaiveDate`, `NaiveTime`, `NaiveDateTime`, `DateTime<FixedOffset>` / `DateTime<Utc>`)
+answer `Ok` / `Err` on every text, never panic, and `Ok` values are valid. -/
+theorem serde_str_total (z : Zoned) (hz : ZInv z) (s : List Nat) :
+    (∃ t, Serde.DateTimeStr.serialize z = .ok (some t)) ∧
+    (∃ r, Serde.NaiveDateStr.visit_str s = .ok r ∧ ∀ d, r = .ok d → DateInv d) ∧
+    (∃ r, Serde.NaiveTimeStr.visit_str s = .ok r ∧ ∀ t, r = .ok t → TValid t) ∧
+    (∃ r, Serde.NaiveDateTimeStr.visit_str s = .ok r ∧ ∀ dt, r = .ok dt → NDTInv dt) ∧
+    (∃ r, Serde.DateTimeStr.deserialize_fixed s = .ok r ∧ ∀ z, r = .ok z → ZInv z) ∧
+    (∃ r, Serde.DateTimeStr.deserialize_utc s = .ok r ∧ ∀ z, r = .ok z → ZInv z ∧ z.off = 0) :=
+  ⟨C15Render.serialize_total z hz, C15Serde.visit_str_total s⟩
+
+/-- **the sixteen serde timestamp modules** (`ts_seconds` … `ts_nanoseconds`, `_option` forms, for
+`DateTime<Utc>` and `NaiveDateTime`): serialization returns normally on every valid value (leap-second
+representations included; the nanosecond modules answer an error by value outside the `i64` window);
+every visitor returns normally on everything a data format can deliver (`visit_i64` of any `i64`,
+`visit_u64` of any `u64`, anything else; `None`, unit, `Some(..)`) and a value it returns is valid
+(C20 `ts_rejects`, `ts_option_reads`). -/
+theorem serde_ts_total (tg : Serde.Target) (u : Serde.TsUnit) (dt : NaiveDT) (h : NDTInv dt)
+    (w : Serde.WInt) (hw : C15Serde.WIntOk w) (wo : Serde.WOpt) (hwo : C15Serde.WOptOk wo) :
+    (∃ r, Serde.serialize tg u dt = .ok r) ∧ (∃ r, Serde.serialize_option tg u (some dt) = .ok r) ∧
+    (∃ r, Serde.serialize_option tg u none = .ok r) ∧
+    (∃ r, Serde.deserialize tg u w = .ok r ∧ ∀ x, r = .ok x → NDTInv x) ∧
+    (∃ r, Serde.deserialize_option tg u wo = .ok r ∧ ∀ x, r = .ok (some x) → NDTInv x) := by
+  obtain ⟨a, b, c⟩ := C15Serde.ts_serialize_total tg u dt h
+  exact ⟨a, b, c, C15Serde.ts_deserialize_total tg u w hw, C15Serde.ts_deserialize_option_total tg u wo hwo⟩
+
+/-- non-vacuity: the last representable instant as a leap second, `u64::MAX` handed to `visit_u64`,
+`i64::MIN` inside `Some` -/
+example : NDTInv ⟨NaiveDT.MAX.date, ⟨86399, 1999999999⟩⟩ ∧ C15Serde.WIntOk (.u64 18446744073709551615) ∧
+    C15Serde.WOptOk (.some (.i64 (-9223372036854775808))) :=
+  ⟨by decide, by show Serde.isU64 _; unfold Serde.isU64; omega, by show Ts.isI64 _; unfold Ts.isI64; omega⟩
+
+/-! ## zone-aware field replacement and checked stepping -/
+
+/-- **`DateTime::with_*`, `with_time`, `checked_add/sub_months`, `checked_add/sub_days`** on every
+well-formed zone-aware value (any offset of less than a day; wall clock possibly in a headroom day) and
+every argument (`u32` / `i32` fields of any size, every valid time of day, every `u32` month count and
+every `u64` day count): the call returns normally — never the `naive_local` panic, no overflow — and a
+value it returns is well formed, keeps the offset and passes the range filter the code applies
+(`MIN_UTC ..= MAX_UTC` for the replacements and `with_time`; representable for the month steppers;
+`≤ MAX_UTC` resp. `≥ MIN_UTC` for the day steppers — `Days(0)` added returns the value itself).
+Collected from C08 `zoned_ops_spec`, C04 `with_time_spec` and `stepping_spec`. -/
+theorem zoned_ops_total (z : Zoned) (hz : ZInv z) (v k : Nat) (y' w : Int) (hw : 0 ≤ w)
+    (t : Time) (ht : TValid t) (n : Int) (hn : 0 ≤ n ∧ n ≤ 18446744073709551615) :
+    (∃ r, Zoned.with_year z y' = .ok r ∧ ZRes InUtcRange z r) ∧
+    (∃ r, Zoned.with_month z v = .ok r ∧ ZRes InUtcRange z r) ∧
+    (∃ r, Zoned.with_month0 z v = .ok r ∧ ZRes InUtcRange z r) ∧
+    (∃ r, Zoned.with_day z v = .ok r ∧ ZRes InUtcRange z r) ∧
+    (∃ r, Zoned.with_day0 z v = .ok r ∧ ZRes InUtcRange z r) ∧
+    (∃ r, Zoned.with_ordinal z v = .ok r ∧ ZRes InUtcRange z r) ∧
+    (∃ r, Zoned.with_ordinal0 z v = .ok r ∧ ZRes InUtcRange z r) ∧
+    (∃ r, Zoned.with_hour z w = .ok r ∧ ZRes InUtcRange z r) ∧
+    (∃ r, Zoned.with_minute z w = .ok r ∧ ZRes InUtcRange z r) ∧
+    (∃ r, Zoned.with_second z w = .ok r ∧ ZRes InUtcRange z r) ∧
+    (∃ r, Zoned.with_nanosecond z w = .ok r ∧ ZRes InUtcRange z r) ∧
+    (∃ r, Zoned.checked_add_months z k = .ok r ∧ ZRes (fun s _ => InRangeSecs s) z r) ∧
+    (∃ r, Zoned.checked_sub_months z k = .ok r ∧ ZRes (fun s _ => InRangeSecs s) z r) ∧
+    (∃ r, Zoned.with_time z t = .ok r ∧ ZRes InUtcRange z r) ∧
+    (∃ r, Zoned.checked_add_days z n = .ok r ∧ ZRes (fun s f => n = 0 ∨ LeMaxUtc s f) z r) ∧
+    (∃ r, Zoned.checked_sub_days z n = .ok r ∧ ZRes (fun s _ => GeMinUtc s) z r) := by
+  obtain ⟨a1, a2, a3, a4, a5, a6, a7, a8, a9, a10, a11, a12, a13⟩ := replace_total z hz v k y' w hw
+  obtain ⟨d1, d2⟩ := days_total z hz n hn
+  exact ⟨a1, a2, a3, a4, a5, a6, a7, a8, a9, a10, a11, a12, a13, with_time_total z hz t ht, d1, d2⟩
+
+/-- non-vacuity (finding #14's input): `MAX_UTC` at `+01:00` with the time of day replaced by 23:00 would
+denote an instant beyond `MAX_UTC`: `None`, not an out-of-range value and not a panic -/
+example : Zoned.with_time ⟨NaiveDT.MAX, 3600⟩ ⟨82800, 0⟩ = .ok none ∧
+    Zoned.checked_add_days ⟨NaiveDT.MAX, 3600⟩ 18446744073709551615 = .ok none ∧
+    Zoned.with_month ⟨NaiveDT.MAX, 3600⟩ 4294967295 = .ok none := by decide +kernel
+
+/-! ## byte level: `&str` slices are taken at char boundaries
+
+The scanner models work on byte lists and return the unconsumed suffix; Rust slices the `&str` at the
+number of bytes consumed (`&s[k..]`), which panics unless `k` is a char boundary.  `validUtf8` is the
+model of `str::from_utf8` (Model/TzParse.lean), `isCharBoundary` is `str::is_char_boundary`,
+`BoundarySuffix s rest` says that what was consumed is itself well-formed UTF-8 (Spec/Utf8Spec.lean). -/
+
+open Chrono.M.Tz Chrono.Spec.Utf8 Chrono.M.Scan in
+/-- **a boundary suffix is a legal slice.**  For a well-formed `s` and a suffix `rest` after a
+well-formed consumed part, with `k = s.len() − rest.len()` the number of bytes consumed: `k ≤ s.len()`,
+`rest` is `&s[k..]`, `s.is_char_boundary(k)` holds — the slice cannot panic — and `rest` is again
+well-formed (a `&str` for the next primitive). -/
+theorem boundary_suffix_is_char_boundary (s rest : List Nat) (hv : validUtf8 s = true)
+    (h : BoundarySuffix s rest) :
+    s.length - rest.length ≤ s.length ∧ rest = s.drop (s.length - rest.length) ∧
+    isCharBoundary s (s.length - rest.length) = true ∧ validUtf8 rest = true :=
+  Utf8.bs_boundary hv h
+
+open Chrono.M.Tz Chrono.Spec.Utf8 Chrono.M.Scan in
+/-- **slicing only after an ASCII match** (the anchored mechanism, in general form; it covers every
+slice site also inside a run that fails later): in a well-formed string, the position after any run of
+matched ASCII bytes, and the position right after ANY ASCII byte (whatever precedes it — `comment_2822`'s
+`&s[i + 1..]` after `)`), is a char boundary with a well-formed rest. -/
+theorem slice_after_ascii (pre rest : List Nat) (c : Nat) :
+    ((∀ b ∈ pre, b < 128) → validUtf8 (pre ++ rest) = true →
+      isCharBoundary (pre ++ rest) pre.length = true ∧ validUtf8 rest = true) ∧
+    (c < 128 → validUtf8 (pre ++ c :: rest) = true →
+      isCharBoundary (pre ++ c :: rest) (pre.length + 1) = true ∧ validUtf8 rest = true) := by
+  constructor
+  · intro ha hv
+    obtain ⟨_, _, h3, h4⟩ := Utf8.bs_boundary hv (Utf8.bs_ascii pre rest ha)
+    rw [List.length_append] at h3
+    rw [show pre.length + rest.length - rest.length = pre.length by omega] at h3
+    exact ⟨h3, h4⟩
+  · intro hc hv
+    have hp := Utf8.valid_upto_ascii _ pre c rest (Nat.le_refl _) hv hc
+    have hb : BoundarySuffix (pre ++ c :: rest) rest := ⟨pre ++ [c], by simp, hp⟩
+    obtain ⟨_, _, h3, h4⟩ := Utf8.bs_boundary hv hb
+    rw [List.length_append, List.length_cons] at h3
+    rw [show pre.length + (rest.length + 1) - rest.length = pre.length + 1 by omega] at h3
+    exact ⟨h3, h4⟩
+
+open Chrono.M.Tz Chrono.Spec.Utf8 Chrono.M.Scan in
+/-- **scan_prim_boundary.**  Every scanning primitive of src/format/scan.rs that returns a rest, on any
+input: what it consumed is well-formed UTF-8 — digits; matched ASCII letters (`| 32` comparisons and
+`eq_ignore_ascii_case` against ASCII tables match ASCII bytes only); whole white-space characters; `:`;
+`+`, `-` or the three bytes of U+2212; for `comment_2822` everything up to and including the closing `)`
+of a well-formed input — so by `boundary_suffix_is_char_boundary` the byte offset it slices at is a char
+boundary of every `&str`.  `number` is called with `min ≤ max` (asserted in the Rust code), `char` with an
+ASCII byte (all call sites pass `b':'`, `b'-'`). -/
+theorem scan_prim_boundary (s rest : List Nat) (v : Int) (k : Nat) (mx : Option Nat) (c : Nat) (i : Nat)
+    (w : Weekday) (cm : ColonMode) (z mm ms : Bool) :
+    (number s k mx = .ok (rest, v) → (∀ m, mx = some m → k ≤ m) → BoundarySuffix s rest) ∧
+    (nanosecond s = .ok (rest, v) → BoundarySuffix s rest) ∧
+    (nanosecond_fixed s k = .ok (rest, v) → BoundarySuffix s rest) ∧
+    (Scan.char s c = .ok rest → c < 128 → BoundarySuffix s rest) ∧
+    (space s = .ok rest → BoundarySuffix s rest) ∧
+    BoundarySuffix s (trimStart s) ∧ BoundarySuffix s (colon_or_space s) ∧
+    (short_month0 s = .ok (rest, i) → BoundarySuffix s rest) ∧
+    (short_weekday s = .ok (rest, w) → BoundarySuffix s rest) ∧
+    (short_or_long_month0 s = .ok (rest, i) → BoundarySuffix s rest) ∧
+    (short_or_long_weekday s = .ok (rest, w) → BoundarySuffix s rest) ∧
+    (timezone_offset s cm z mm ms = .ok (rest, v) → BoundarySuffix s rest) ∧
+    (timezone_offset_2822 s = .ok (rest, v) → BoundarySuffix s rest) ∧
+    (comment_2822 s = .ok rest → validUtf8 s = true → BoundarySuffix s rest) :=
+  ⟨fun h hm => ScanBoundary.number_bs s k mx rest v hm h, ScanBoundary.nanosecond_bs s rest v,
+   ScanBoundary.nanosecond_fixed_bs s k rest v, fun h hc => ScanBoundary.char_bs s rest c hc h,
+   ScanBoundary.space_bs s rest, ScanBoundary.trimStart_bs s, ScanBoundary.colon_or_space_bs s,
+   ScanBoundary.short_month0_bs s rest i, ScanBoundary.short_weekday_bs s rest w,
+   ScanBoundary.short_or_long_month0_bs s rest i, ScanBoundary.short_or_long_weekday_bs s rest w,
+   ScanBoundary.timezone_offset_bs s cm z mm ms rest v, ScanBoundary.timezone_offset_2822_bs s rest v,
+   fun h hv => ScanBoundary.comment_2822_bs s rest hv h⟩
+
+open Chrono.M.Tz Chrono.Spec.Utf8 Chrono.M.Scan in
+/-- **the slicing steps of src/format/parse.rs.**  On a well-formed text: one item of `parse_internal`
+(a literal `&str` prefix, a white-space item, a numeric item with its sign, `AM`/`PM` — two bytes
+matched with `| 32` —, `.` before a fraction, names, offsets, `%Z`'s run of whole non-space characters),
+the RFC 2822 scanner (`,` after the weekday, folding white space, legacy zones, trailing comments), the
+strict and the relaxed RFC 3339 scanner (`T`/`t`/space, `UTC` matched case-insensitively), and the whole
+item-driven parser for ANY item list whose literals are `&str`s (`ItemsUtf8`; true of every `Item` by its
+Rust type): what is consumed is well-formed UTF-8, so every slice is at a char boundary and the rest
+handed on (or returned by `parse_and_remainder`) is a `&str`. -/
+theorem parser_slices_at_boundaries (items : List Item) (it : Item) (p : Parsed) (s : List Nat) (p' : Parsed)
+    (s' : List Nat) (hv : validUtf8 s = true) :
+    (Parse.parseItemBase p s it = .ok (p', s') → (∀ lit, it = .literal lit → validUtf8 lit = true) →
+      BoundarySuffix s s') ∧
+    (Parse.parse_rfc2822 p s = .ok (p', s') → BoundarySuffix s s') ∧
+    (Parse.parse_rfc3339 p s = .ok (p', s') → BoundarySuffix s s') ∧
+    (Parse.parse_rfc3339_relaxed p s = .ok (p', s') → BoundarySuffix s s') ∧
+    (Parse.parse_internal p s items = .ok (p', s') → ScanBoundary.ItemsUtf8 items → BoundarySuffix s s') :=
+  ⟨fun h hl => ScanBoundary.parseItemBase_bs p s it p' s' hv hl h, ScanBoundary.parse_rfc2822_bs p s p' s' hv,
+   ScanBoundary.parse_rfc3339_bs p s p' s', ScanBoundary.parse_rfc3339_relaxed_bs p s p' s' hv,
+   fun h hl => ScanBoundary.parse_internal_bs items p s p' s' hv hl h⟩
+
+open Chrono.M.Tz Chrono.Spec.Utf8 Chrono.M.Scan in
+/-- **end to end, `parse_from_str` / `parse_and_remainder` on `&str` text × `&str` format string** (any
+two well-formed UTF-8 byte strings): every `parse_next_item` call of `StrftimeItems::new(fmt)` (strict
+mode) slices the format string after whole characters, every literal it cuts out is well-formed UTF-8 —
+so the items satisfy `ItemsUtf8` — and hence every slice the item-driven parser takes of the text is at a
+char boundary; the remainder `parse_and_remainder` returns is a `&str`.  (Lenient mode, which
+`parse_from_str` does not use, re-slices the format string at a byte count kept in `error_len`; that
+count is not covered here.) -/
+theorem parse_from_str_slices (s fmt : List Nat) (hs : validUtf8 s = true) (hf : validUtf8 fmt = true) :
+    (∀ r, Strftime.parse_next_item false fmt = some r → BoundarySuffix fmt r.1) ∧
+    ScanBoundary.ItemsUtf8 (Strftime.items fmt) ∧
+    (∀ p rest, ParseFrom.fieldsRem s fmt = .ok (p, rest) → BoundarySuffix s rest ∧ validUtf8 rest = true) := by
+  have hi := StrftimeUtf8.items_utf8 fmt hf
+  refine ⟨fun r h => (StrftimeUtf8.parse_next_item_good fmt hf r h).1, hi, fun p rest h => ?_⟩
+  have hb := ScanBoundary.parse_internal_bs _ _ s p rest hs hi h
+  exact ⟨hb, Utf8.bs_valid_rest hs hb⟩
+
+open Chrono.M.Tz Chrono.Spec.Utf8 Chrono.M.Scan in
+/-- non-vacuity, multi-byte characters right after the match: `jAn` before `é` (slice at 3, a boundary;
+4 is not); U+2212 as the sign of an offset followed by `é`; a comment containing `é` and an escaped `)`
+followed by `€` -/
+example :
+    validUtf8 [106, 65, 110, 195, 169] = true ∧
+    (short_month0 [106, 65, 110, 195, 169]).toOption = some ([195, 169], 0) ∧
+    isCharBoundary [106, 65, 110, 195, 169] 3 = true ∧ isCharBoundary [106, 65, 110, 195, 169] 4 = false ∧
+    (timezone_offset [226, 136, 146, 48, 49, 58, 48, 48, 195, 169] .colonOrSpace true false true).toOption
+      = some ([195, 169], -3600) ∧
+    (comment_2822 [32, 40, 195, 169, 92, 41, 41, 226, 130, 172]).toOption = some [226, 130, 172] := by
+  decide
 
 end Chrono.Props.C15
